@@ -72,6 +72,9 @@ func compareSeq(got, want []ref.Msg) *Fail {
 			if !got[i].Equal(want[j]) {
 				return failf("scan:altered", "message at offset %d altered: got %v want %v", got[i].Offset, got[i], want[j])
 			}
+			if f := absentForm(got[i]); f != "" {
+				return failf("scan:altered:"+f, "message at offset %d is returned with an %s: a missing key or value is nil in every format version (the library itself tests Value == nil for tombstones)", got[i].Offset, f)
+			}
 			i++
 			j++
 		case got[i].Offset < want[j].Offset:
@@ -652,7 +655,23 @@ type ObsOpts struct {
 }
 
 func digest(m ref.Msg) string {
-	return fmt.Sprintf("%d@%d/%08x/%08x", m.Offset, m.T, crc32.ChecksumIEEE(m.Key), crc32.ChecksumIEEE(m.Value))
+	d := fmt.Sprintf("%d@%d/%08x/%08x", m.Offset, m.T, crc32.ChecksumIEEE(m.Key), crc32.ChecksumIEEE(m.Value))
+	if f := absentForm(m); f != "" {
+		d += "!" + f
+	}
+	return d
+}
+
+// absentForm reports a missing key or value that a read returned as an empty non-nil slice instead
+// of nil. Both format versions return nil; callers (compact.go among them) test == nil.
+func absentForm(m ref.Msg) string {
+	switch {
+	case m.Key != nil && len(m.Key) == 0:
+		return "empty-non-nil-key"
+	case m.Value != nil && len(m.Value) == 0:
+		return "empty-non-nil-value"
+	}
+	return ""
 }
 
 func digests(ms []ref.Msg) string {
